@@ -11,7 +11,7 @@ from leanfmt import lean_list
 
 ID = "C07"
 LEAN_MODULES = ["EzdxfVerif.Props.C07"]
-DRIVER_DEPS = ["EzdxfVerif.Gen.RecoverTables", "EzdxfVerif.Model.Recover", "Drivers.Proto"]
+DRIVER_DEPS = ["EzdxfVerif.Gen.RecoverTables", "EzdxfVerif.Model.Recover", "EzdxfVerif.Model.RecoverLoad", "Drivers.Proto"]
 
 
 def _nats(s) -> str:
@@ -112,6 +112,38 @@ def regenerate(ctx):
     out += f"/-- True iff recover.FLOAT_PATTERN_* still has the `(:?` typo (optional colon inside the groups) -/\ndef floatPatternColon : Bool := {'true' if '(:?' in R.FLOAT_PATTERN_S.pattern else 'false'}\n"
     # behaviour of the four formerly defective sites, observed on the CURRENT source (T-tab probe of the real functions):
     # the theorems about the current code are stated for this configuration, so reverting a fix re-opens front_total
+    # --- tables and source-shape facts for Model/RecoverLoad.lean (ExtendedTags._setup, setup_app_data, XData)
+    from ezdxf.lldxf import extendedtags as XT_, loader as LD_
+    import inspect
+
+    xsrcs = ["src/ezdxf/lldxf/extendedtags.py", "src/ezdxf/lldxf/loader.py", "src/ezdxf/entities/appdata.py",
+             "src/ezdxf/entities/xdict.py", "src/ezdxf/entities/xdata.py", "src/ezdxf/entities/dxfentity.py"]
+    xtext = {s: ctx.src(s) for s in xsrcs}
+    srcs = srcs + xsrcs
+    setup_src = inspect.getsource(XT_.ExtendedTags._setup)
+    tail = setup_src[setup_src.index("tag = collect_base_class()"):]
+    loops = re.findall(r"while ([^:]+):\n\s+tag = (\w+)\(tag\)", tail)
+    need(loops == [("tag.code == SUBCLASS_MARKER", "collect_subclass"), ("is_embedded_object_marker(tag)", "collect_embedded_object"),
+                   ("tag.code == XDATA_MARKER", "collect_xdata")], f"ExtendedTags._setup: the three collector loops changed: {loops}")
+    need(re.search(r"if tag is not NONE_TAG:\s+raise DXFStructureError", tail) is not None, "_setup: final NONE_TAG check changed")
+    need(setup_src.count("raise DXFStructureError") == 2, "_setup: number of raise DXFStructureError sites != 2")
+    need((XT_.SUBCLASS_MARKER, XT_.EMBEDDED_OBJ_MARKER, XT_.XDATA_MARKER, XT_.APP_DATA_MARKER) == (100, 101, 1001, 102), "marker codes changed")
+    need(re.search(r'for name in \["TABLES", "CLASSES", "ENTITIES", "BLOCKS", "OBJECTS"\]', xtext["src/ezdxf/lldxf/loader.py"]) is not None,
+         "load_and_bind_dxf_content section order changed")
+    need("yield factory.load(ExtendedTags(entity), doc)" in xtext["src/ezdxf/lldxf/loader.py"], "load_dxf_entities changed")
+    need(const.ACAD_REACTORS == "{ACAD_REACTORS" and const.ACAD_XDICTIONARY == "{ACAD_XDICTIONARY" and const.REACTOR_HANDLE_CODE == 330,
+         "ACAD_REACTORS / ACAD_XDICTIONARY constants changed")
+    need(re.search(r"if len\(tags\) != 3 or tags\[1\]\.code != XDICT_HANDLE_CODE:\s+raise DXFStructureError", xtext["src/ezdxf/entities/xdict.py"])
+         is not None, "ExtensionDict.from_tags guard changed")
+    need(re.search(r"if len\(tags\) < 2:.*\n\s+raise DXFStructureError", xtext["src/ezdxf/entities/appdata.py"]) is not None,
+         "Reactors.from_tags guard changed")
+    need(re.search(r"except const\.DXFValueError:.*\n\s+self\.xdata = XData\.safe_init\(tags\.xdata\)", xtext["src/ezdxf/entities/dxfentity.py"])
+         is not None, "DXFEntity.load_tags XData fallback changed")
+    out += f"/-- types.VALID_XDATA_GROUP_CODES (sorted) -/\ndef validXdataCodes : List Nat := {lean_list((str(c) for c in sorted(T.VALID_XDATA_GROUP_CODES)), 24)}\n"
+    out += f"/-- const.XDICT_HANDLE_CODE -/\ndef xdictHandleCode : Int := {const.XDICT_HANDLE_CODE}\n"
+    reactors_fixed = probe_reactors()
+    out += ("/-- probed: does Reactors.from_tags ignore values that are no valid handles (fix 'Reactors.from_tags kept invalid reactor handles')? -/\n"
+            f"def treeFixReactors : Bool := {'true' if reactors_fixed else 'false'}\n")
     cfg = probe_cfg()
     for i, name in enumerate(["treeFixSection", "treeFixErrMsg", "treeFixDetect", "treeFixUnicode"]):
         out += f"/-- probed: is defect C07-{i + 1} fixed in the tree under test? -/\ndef {name} : Bool := {'true' if cfg[i] == '1' else 'false'}\n"
@@ -131,13 +163,26 @@ RULE = (
     "non-trivial = input has a fault / a non-default branch; distinct by hash. oracle: recover.read(BytesIO(faulted)) "
     "under a watchdog returns or raises DXFStructureError, the returned document is written and strictly reloaded, "
     "modelspace survives a truncation behind ENTITIES; quick = seeded sample stratified by (file, section, fault kind), "
-    "thorough = every tag position x every fault kind (+ every byte for truncation) + random double faults."
+    "thorough = every tag position x every fault kind (+ every byte for truncation) + random double faults. "
+    "X2b: the same front-end comparison on EVERY ASCII DXF file of the repository (examples_dxf, integration_tests) up to "
+    "300 kB, undamaged and with one fault (distribution by directory / DXF version / fault kind in the evidence). "
+    "X10: the generic first loading stage behind the front end (ExtendedTags._setup, DXFEntity.setup_app_data with "
+    "Reactors / ExtensionDict / AppData, XData with the safe_init fallback) vs Model/RecoverLoad.lean on seeded damaged entity "
+    "tag lists (0-3 tag faults: dropped / duplicated / swapped tags, garbage codes and values, cut) and on every entity group "
+    "the real front end delivers for the corpus files (+ one fault); X11: section order of load_and_bind_dxf_content. "
+    "O3: the oracle also runs on the repository files that are valid in the sense of the property (strictly loadable, "
+    "undamaged file passes), single and double faults."
 )
 TRUSTED_BASE = [
     "CPython int()/float()/bytes.decode/str.upper/str.strip/re semantics as modelled by hand (tied by the unit correspondence streams)",
     "generators are lazy in Python; the model orders exceptions by RStream (tags delivered before the terminal exception)",
     "code pages other than cp1252/utf8, MIF \\M+ decoding and Unicode (non-ASCII) decimal digits are not modelled (inputs skipped and counted)",
-    "everything behind Drawing._load_section_dict (entity loading, audit, export) is oracle-only",
+    "behind the front end only the generic envelope of the first loading stage is modelled (ExtendedTags._setup, setup_app_data, "
+    "XData init; Model/RecoverLoad.lean, tied by X10/X11 and by source-shape checks in regenerate); the entity specific attribute "
+    "loaders, post_load_hook, Auditor, export and strict reload are oracle-only",
+    "handle strings (reactors) are modelled for ASCII text: int(str, 16) also accepts non-ASCII decimal digits and strips "
+    "Unicode white space (X10 generates ASCII handles; corpus groups with non-ASCII strings are skipped)",
+    "the unfixed behaviour of Reactors.from_tags (treeFixReactors = false) is modelled for string values only",
 ]
 ASSUMPTIONS = [
     "sys.get_int_max_str_digits() == 4300",
@@ -147,10 +192,23 @@ ASSUMPTIONS = [
 OPEN = [
     "front_total is stated for Cfg.tree, the configuration regenerate() probes from the current source (all four fixes present); "
     "the five unfixed_counterexample theorems document the pre-fix behaviour (Cfg.unfixed)",
-    "no theorem covers Drawing._load_section_dict / Auditor / export (oracle only: the save/reload findings in known.d/C07.json)",
+    "behind the front end: theorems cover the generic envelope only (load_envelope_total, load_stage_total, "
+    "setup_only_missing_app_close, checked_entity_loads, reactors_sortable, xdata_codes_valid); no theorem covers the entity "
+    "specific loaders, post_load_hook, Auditor, export, strict reload (oracle only; all ten former save/reload findings are fixed "
+    "in the repository, see known.d/C07.json 'fixed')",
+    "single faults that break the pairing of code and value lines (a dropped code line or value line: all following lines are "
+    "re-paired) are not covered by a byte-level theorem (single_fault_bytes needs complete line pairs); correspondence and oracle only",
+    "single_fault_window / single_fault_bytes need the stale-code hypothesis: filter_invalid_point_codes keeps its expected_code across a "
+    "(0, ..) tag (stale_code_matters: proved necessary, confirmed on the real function; harmless for written files)",
+    "crashed_writer_bytes keeps the existential R12 flag of sections_prefix_stable (a HEADER section behind the cut changes the version)",
+    "absence of hangs behind the front end is watched (CPU-time watchdog), not proved",
 ]
 
 VERSIONS = ["R12", "R2000", "R2004", "R2007", "R2010", "R2013", "R2018"]
+# minimal documents: only the default layouts Model + Layout1, no user tables/blocks/objects (the restore paths of
+# Layouts.load / the audit that a document with a third layout never reaches); id = version + "m"
+MINIMAL = ["R2000m", "R2018m"]
+FILE_IDS = VERSIONS + MINIMAL
 WATCHDOG_S = 20.0
 
 
@@ -201,6 +259,18 @@ def build_doc(version: str):
     return doc
 
 
+def build_min_doc(version: str):
+    import ezdxf
+
+    doc = ezdxf.new(version)
+    msp = doc.modelspace()
+    msp.add_line((0, 0), (1, 1))
+    msp.add_circle((1, 2), 3)
+    msp.add_lwpolyline([(0, 0), (1, 0), (1, 1)])
+    doc.layout("Layout1").add_circle((0, 0), 1)
+    return doc
+
+
 def msp_types(doc):
     return [e.dxftype() for e in doc.modelspace()]
 
@@ -215,8 +285,8 @@ def _build_corpus_raw():
 
     logging.disable(logging.CRITICAL)
     out = {}
-    for v in VERSIONS:
-        doc = build_doc(v)
+    for v in FILE_IDS:
+        doc = build_min_doc(v[:-1]) if v.endswith("m") else build_doc(v)
         s = io.StringIO()
         doc.write(s)
         out[v] = [s.getvalue().encode(doc.output_encoding, errors="dxfreplace").hex(), msp_types(doc)]
@@ -242,7 +312,7 @@ def corpus():
         raise RuntimeError("C07 corpus builder failed: " + r.stderr[-2000:])
     raw = json.loads(r.stdout)
     out = {}
-    for v in VERSIONS:
+    for v in FILE_IDS:
         data, msp = bytes.fromhex(raw[v][0]), raw[v][1]
         lines = data.splitlines(keepends=True)
         assert len(lines) % 2 == 0
@@ -387,10 +457,50 @@ def run_case(case):
     return case, v, d
 
 
+def repo_lines(rel):
+    for name, data in repo_files()["files"]:
+        if name == rel:
+            return data.splitlines(keepends=True)
+    raise KeyError(rel)
+
+
+def repo_usable(rel):
+    """a repository file takes part in the oracle if it is a valid file in the sense of the property: even number of
+    lines, strictly loadable by ezdxf.read, and recover.read + save + strict reload work on the undamaged file"""
+    import logging
+
+    import ezdxf
+
+    logging.disable(logging.CRITICAL)
+    data = dict(repo_files()["files"])[rel]
+    if not data.endswith(b"\n") or len(data.splitlines()) % 2:
+        return rel, "odd number of lines"
+    try:
+        ezdxf.read(io.StringIO(data.decode("utf8", "surrogateescape")))
+    except Exception as e:  # noqa
+        return rel, "strict read fails: " + type(e).__name__
+    v, d = evaluate(data)
+    return rel, "" if v == "ok" else f"undamaged file: {v}"
+
+
+def run_repo_case(case):
+    rel, faults = case
+    v, d = evaluate(apply_faults(repo_lines(rel), faults))
+    return case, v, d
+
+
 def _pool():
     import multiprocessing as mp
 
-    return mp.get_context("fork").Pool(min(16, os.cpu_count() or 4))
+    return mp.get_context("fork").Pool(min(int(os.environ.get("VERIF_WORKERS", "16")), os.cpu_count() or 4))
+
+
+def _is_link_tag(code_line: bytes) -> bool:
+    try:
+        c = int(code_line)
+    except ValueError:
+        return False
+    return c in (0, 2, 3, 5, 105, 1005) or 320 <= c <= 369
 
 
 def single_fault_cases(ctx, rng):
@@ -405,7 +515,13 @@ def single_fault_cases(ctx, rng):
         for sec, ks in by_sec.items():
             for kind in KINDS:
                 if ctx.quick:
-                    sel = rng.sample(ks, min(len(ks), 36 if kind.startswith("garb") else 18))
+                    # half of the sample from the tags that carry the document structure (entity type, handle, name, pointer
+                    # tags): a fault there detaches or re-links entities, which is where the loader / audit repairs live
+                    want = 36 if kind.startswith("garb") else 18
+                    link = [k for k in ks if _is_link_tag(ent["lines"][2 * k])]
+                    other = [k for k in ks if not _is_link_tag(ent["lines"][2 * k])]
+                    sel = rng.sample(link, min(len(link), want // 2))
+                    sel += rng.sample(other, min(len(other), want - len(sel)))
                 else:
                     sel = ks
                 for k in sel:
@@ -435,9 +551,10 @@ def oracle(ctx):
     cases = single_fault_cases(ctx, rng)
     ndouble = ctx.n(3000, 30000)
     for _ in range(ndouble):
-        fid = rng.choice(VERSIONS)
+        fid = rng.choice(FILE_IDS)
         n = cp[fid]["ntags"]
         cases.append((fid, tuple((rng.choice(KINDS), rng.randrange(n), rng.randrange(64)) for _ in range(2))))
+    repo_files()  # cached before the workers are forked
     with _pool() as pool:
         for case, v, d in pool.imap(run_case, cases, chunksize=32):  # ordered: deterministic examples
             fid, faults = case
@@ -448,6 +565,29 @@ def oracle(ctx):
             if v not in ("ok", "dxfstructure"):
                 kind = faults[0][0] if len(faults) == 1 else "double"
                 ctx.fail(f"{v}/{kind}", f"{fid} + {list(faults)}: {d}", {"file": fid, "faults": [list(f) for f in faults]})
+        # O3: the files of the repository (examples_dxf, integration_tests) that are valid in the sense of the property
+        rels = [name for name, _ in repo_files()["files"]]
+        if ctx.quick:
+            rels = sorted(rng.sample(rels, min(len(rels), 24)))
+        usable = []
+        for rel, why in pool.imap(repo_usable, rels, chunksize=1):
+            ctx.hist("O3 repository files", "usable file" if not why else "skipped file: " + why)
+            if not why:
+                usable.append(rel)
+        cases = []
+        for _ in range(ctx.n(400, 12000) if usable else 0):
+            rel = rng.choice(usable)
+            n = len(repo_lines(rel)) // 2
+            nf = 1 if rng.random() < 0.8 else 2
+            cases.append((rel, tuple((rng.choice(KINDS), rng.randrange(n), rng.randrange(1000)) for _ in range(nf))))
+        for case, v, d in pool.imap(run_repo_case, cases, chunksize=8):
+            rel, faults = case
+            ctx.count("O3 repository files", case, True)
+            ctx.hist("O3 repository files", f"{faults[0][0]}" if len(faults) == 1 else "double")
+            ctx.hist("O3 repository files", "verdict:" + v.split("/")[0])
+            if v not in ("ok", "dxfstructure"):
+                kind = faults[0][0] if len(faults) == 1 else "double"
+                ctx.fail(f"{v}/{kind}", f"{rel} + {list(faults)}: {d}", {"repo_file": rel, "faults": [list(f) for f in faults]})
 
 
 def replay(ctx, rep):
@@ -458,6 +598,17 @@ def replay(ctx, rep):
             v, d = evaluate(bytes.fromhex(r["bytes"]))
             ok = ok and v in ("ok", "dxfstructure")
             msgs.append(f"bytes[{len(r['bytes']) // 2}]: {v} {d}")
+            continue
+        if "repo_file" in r:
+            v, d = evaluate(apply_faults(repo_lines(r["repo_file"]), [tuple(f) for f in r["faults"]]))
+            ok = ok and v in ("ok", "dxfstructure")
+            msgs.append(f"{r['repo_file']}+{r['faults']}: {v} {d}")
+            continue
+        if "ctags" in r:
+            res = impl_envelope([tuple(t) for t in r["ctags"]])
+            good = res.startswith("ok") or res == "err DXFStructureError"
+            ok = ok and good
+            msgs.append(f"envelope {r['ctags']}: {res[:200]}")
             continue
         if "file" not in r:
             continue
@@ -530,6 +681,16 @@ def probe_cfg() -> str:
                                                            (o3, "UnicodeDecodeError"), (o4, "ValueError")))
 
 
+def probe_reactors() -> bool:
+    """True iff Reactors.from_tags drops values that are no valid handles"""
+    from ezdxf.entities.appdata import Reactors
+    from ezdxf.lldxf.tags import Tags
+    from ezdxf.lldxf.types import DXFTag
+
+    r = Reactors.from_tags(Tags([DXFTag(102, "{ACAD_REACTORS"), DXFTag(330, "xyz"), DXFTag(330, "1F"), DXFTag(102, "}")]))
+    return "xyz" not in r.reactors and "1F" in r.reactors
+
+
 def impl_front(data: bytes, mode: str, ctx=None) -> str:
     from ezdxf import recover as R
 
@@ -557,6 +718,48 @@ def impl_encoding(data: bytes):
         return R.detect_encoding(R.bytes_loader(io.BytesIO(data)))
     except Exception:  # noqa
         return None
+
+
+REPO_FILE_LIMIT = 300_000
+_REPO_FILES = None
+
+
+def repo_files():
+    """all *.dxf under examples_dxf and integration_tests of the repository under test that are ASCII DXF, at most
+    REPO_FILE_LIMIT bytes and inside the modelled encodings"""
+    global _REPO_FILES
+    if _REPO_FILES is not None:
+        return _REPO_FILES
+    import ezdxf
+
+    root = os.path.dirname(os.path.dirname(os.path.dirname(os.path.abspath(ezdxf.__file__))))
+    found, files, skipped, versions = 0, [], {}, {}
+    for sub in ("examples_dxf", "integration_tests"):
+        for dirpath, _, names in sorted(os.walk(os.path.join(root, sub))):
+            for n in sorted(names):
+                if not n.lower().endswith(".dxf"):
+                    continue
+                found += 1
+                path = os.path.join(dirpath, n)
+                rel = os.path.relpath(path, root)
+                if os.path.getsize(path) > REPO_FILE_LIMIT:
+                    skipped["too big"] = skipped.get("too big", 0) + 1
+                    continue
+                with open(path, "rb") as fh:
+                    data = fh.read()
+                if data.startswith(b"AutoCAD Binary DXF"):
+                    skipped["binary DXF"] = skipped.get("binary DXF", 0) + 1
+                    continue
+                if not modelled_input(data):
+                    skipped["encoding/MIF outside the model"] = skipped.get("encoding/MIF outside the model", 0) + 1
+                    continue
+                mm = re.search(rb"\$ACADVER\s+1\s+(AC\d{4})", data)
+                versions[rel] = mm.group(1).decode() if mm else "none"
+                files.append((rel, data))
+    sizes = sorted(len(d) for _, d in files)
+    q = [sizes[int(i * (len(sizes) - 1) / 4)] for i in range(5)] if sizes else []
+    _REPO_FILES = {"found": found, "files": files, "skipped": skipped, "versions": versions, "quantiles": q}
+    return _REPO_FILES
 
 
 def modelled_input(data: bytes) -> bool:
@@ -681,6 +884,243 @@ def opt_int(f) -> str:
     except ValueError:
         return "none"
     return "ok " + ("-" if v < 0 else "") + str(abs(v) % 2305843009213693951)
+
+
+# ------------------------------------------------------------------ first loading stage behind the front end (Model/RecoverLoad.lean)
+def _mk_tag(c, kind, v):
+    from ezdxf.lldxf.types import DXFBinaryTag, DXFTag, DXFVertex
+
+    if kind == "s":
+        return DXFTag(c, v)
+    if kind == "n":
+        return DXFTag(c, 1)
+    if kind == "v":
+        return DXFVertex(c, (1.0, 2.0, 3.0))
+    return DXFBinaryTag(c, b"\x01")
+
+
+def _enc_ctag(c, kind, v) -> str:
+    return f"{c}:s{_dots(v)}" if kind == "s" else f"{c}:{kind}"
+
+
+def _show_val(v) -> str:
+    from ezdxf.math import Vec3
+
+    if isinstance(v, str):
+        return "s" + _dots(v)
+    if isinstance(v, bytes):
+        return "b"
+    if isinstance(v, (tuple, Vec3)):
+        return "v"
+    return "n"
+
+
+def impl_envelope(ctags, ctx=None) -> str:
+    """the real ExtendedTags + DXFEntity.load_tags (setup_app_data, XData with the safe_init fallback) on one tag list"""
+    from ezdxf.entities.dxfentity import DXFEntity
+    from ezdxf.lldxf.const import DXFStructureError
+    from ezdxf.lldxf.extendedtags import ExtendedTags
+    from ezdxf.lldxf.tags import Tags
+
+    tags = Tags(_mk_tag(c, k, v) for c, k, v in ctags)
+    try:
+        xt = ExtendedTags(tags)
+        ent = DXFEntity()
+        # DXFEntity.load_tags up to (not including) the attribute loader
+        if len(xt.appdata):
+            ent.setup_app_data(xt.appdata)
+        if len(xt.xdata):
+            ent_load_xdata(ent, xt)
+    except DXFStructureError:
+        return "err DXFStructureError"
+    except Exception as e:  # noqa
+        if ctx is not None:
+            ctx.fail(f"crash/{type(e).__name__}/{where(e)}/envelope", f"loading envelope of {ctags!r} raised {type(e).__name__}: {e}"[:400],
+                     {"ctags": [list(t) for t in ctags]})
+        return "err " + type(e).__name__
+
+    def grp(g):
+        return " ".join(show_ctag(t) for t in g)
+
+    base = " ".join(f"a{t.value}" if t.code == 102 and isinstance(t.value, int) else show_ctag(t) for t in xt.subclasses[0])
+    out = "ok base=" + base + "|subs=" + ",".join(grp(g) for g in xt.subclasses[1:]) + "|apps=" + ",".join(grp(g) for g in xt.appdata)
+    out += "|emb=" + ",".join(grp(g) for g in (xt.embedded_objects or [])) + "|xd=" + ",".join(grp(g) for g in xt.xdata)
+    if ent.reactors is None:
+        out += "|r=-"
+    else:
+        last = [g for g in xt.appdata if g[0].value == "{ACAD_REACTORS"][-1]
+        kept = [t.value for t in last[1:-1] if _hashable(t.value) and t.value in ent.reactors.reactors]
+        if set(kept) != set(ent.reactors.reactors):
+            kept.append("?unexpected member")
+        out += "|r=" + ",".join(_dots(h) if isinstance(h, str) else "?" for h in kept)
+    if ent.extension_dict is None:
+        out += "|x=-"
+    else:
+        out += "|x=" + _show_val(ent.extension_dict._xdict)
+    out += "|ad=" + (";".join(_dots(k) + "=" + grp(g) for k, g in ent.appdata.data.items()) if ent.appdata is not None else "")
+    out += "|xdata=" + (";".join(_dots(k) + "=" + grp(g) for k, g in ent.xdata.data.items()) if ent.xdata is not None else "")
+    out += "|iter=" + ("true" if [tuple(t) for t in xt] == [tuple(t) for t in tags] else "false")
+    return out
+
+
+def _hashable(v) -> bool:
+    try:
+        hash(v)
+        return True
+    except TypeError:
+        return False
+
+
+def ent_load_xdata(ent, xt):
+    """the XDATA part of DXFEntity.load_tags (same statements; regenerate() checks the source text)"""
+    from ezdxf.entities.xdata import XData
+    from ezdxf.lldxf import const
+
+    try:
+        ent.xdata = XData(xt.xdata)
+    except const.DXFValueError:
+        ent.xdata = XData.safe_init(xt.xdata)
+
+
+def _kind_of(code: int) -> str:
+    from ezdxf.lldxf import types as T
+
+    if code in T.POINT_CODES:
+        return "v"
+    if code in T.BINARY_DATA:
+        return "b"
+    t = T.TYPE_TABLE.get(code, str)
+    return "s" if t is str else "n"
+
+
+ENV_CODES = [5, 8, 100, 100, 101, 102, 102, 102, 330, 330, 360, 1, 2, 10, 40, 70, 90, 310, 1000, 1001, 1001, 1002, 1010, 1040, 1070, 1071,
+             1072, 999, 1004, 1005, 5000, -5, 62, 6]
+ENV_VALUES = ["{", "}", "{ACAD_REACTORS", "{ACAD_XDICTIONARY", "ACAD_REACTORS}", "ACAD_XDICTIONARY}", "{MYAPP", "MYAPP}", "{MYAPP}", "xyz", "1F",
+              "", "Embedded Object", "embedded object", "AcDbEntity", "MYAPP", "0", "FFFF", "0x1F", "1_F", " 2A ", "-1", "G", "{{", "ACAD"]
+
+
+def gen_envelope_entity(rng):
+    """a realistic entity tag list (as the front end delivers it) with 0-3 tag faults; (code, kind, value) triples"""
+    def T(c, v=None):
+        k = _kind_of(c)
+        return (c, k, (v if v is not None else "x") if k == "s" else None)
+
+    t = [T(0, rng.choice(["LINE", "MTEXT", "XRECORD", "INSERT", "DICTIONARY", "LAYER"])), T(5, "%X" % rng.randrange(1, 999))]
+    if rng.random() < 0.6:
+        t += [T(102, "{ACAD_REACTORS")] + [T(330, rng.choice(["1F", "2A", "1F", "xyz", "", "0x10", "1_0", " A "])) for _ in range(rng.randrange(0, 4))]
+        t += [T(102, rng.choice(["}", "}", "}", "ACAD_REACTORS}"]))]
+    if rng.random() < 0.5:
+        t += [T(102, "{ACAD_XDICTIONARY"), T(rng.choice([360, 360, 360, 330]), "3B"), T(102, "}")]
+    if rng.random() < 0.3:
+        name = rng.choice(["{MYAPP", "{OTHER", "{MYAPP"])
+        t += [T(102, name), T(rng.choice([1, 70, 10, 330]), "d"), T(102, rng.choice(["}", name[1:] + "}"]))]
+    t.append(T(330, "1E"))
+    if rng.random() < 0.8:
+        t += [T(100, "AcDbEntity"), T(8, "0"), T(62, None)]
+        if rng.random() < 0.3:
+            t += [T(102, rng.choice(["{INSUB", "}", "junk"])), T(330, "5")]
+        t += [T(100, "AcDbLine"), T(10), T(11), T(40)]
+    if rng.random() < 0.25:
+        t += [T(101, "Embedded Object"), T(70), T(10), T(102, "{no app"), T(100, "inside")]
+        if rng.random() < 0.3:
+            t += [T(101, "Embedded Object"), T(1, "second")]
+    for _ in range(rng.choice([0, 0, 1, 1, 2])):
+        app = rng.choice(["MYAPP", "ACAD", "MYAPP", "OTHER"])
+        t += [T(1001, app), T(1000, "str"), T(1002, "{"), T(1070), T(1010), T(1002, "}")]
+        if rng.random() < 0.3:
+            t.insert(len(t) - rng.randrange(1, 4), T(rng.choice([40, 8, 1072, 999, 5000, 102, 100]), "bad"))
+    nf = rng.choice([0, 1, 1, 1, 2, 3])
+    for _ in range(nf):
+        if len(t) < 2:
+            break
+        i = rng.randrange(1, len(t))
+        r = rng.random()
+        if r < 0.2:
+            del t[i]
+        elif r < 0.35:
+            t.insert(i, t[i])
+        elif r < 0.5 and i + 1 < len(t):
+            t[i], t[i + 1] = t[i + 1], t[i]
+        elif r < 0.75:
+            c = rng.choice(ENV_CODES)
+            k = _kind_of(c)
+            old = t[i][2]
+            t[i] = (c, k, (old if old is not None else "9") if k == "s" else None)
+        else:
+            c, k, _ = t[i]
+            if k == "s":
+                t[i] = (c, k, rng.choice(ENV_VALUES))
+        if rng.random() < 0.1:
+            t = t[: rng.randrange(1, len(t) + 1)]
+    return t, nf
+
+
+def correspond_load(ctx, rng):
+    """X10/X11: the generic first loading stage (ExtendedTags, setup_app_data, XData) on damaged entity tag lists,
+    and the section order of load_and_bind_dxf_content"""
+    cases = []
+    for _ in range(ctx.n(6000, 60000)):
+        t, nf = gen_envelope_entity(rng)
+        impl = impl_envelope(t, ctx)
+        ctx.hist("X10 loading envelope", "faults:" + str(nf))
+        ctx.hist("X10 loading envelope", impl.split("|")[0][:24] if impl.startswith("err") else "ok")
+        cases.append(("envelope|" + " ".join(_enc_ctag(*x) for x in t), impl, nf > 0 or impl.startswith("err")))
+    # every entity group of the corpus files as the real front end delivers them, with one tag fault
+    from ezdxf import recover as R
+
+    ngroups = 0
+    for fid, ent in corpus().items():
+        try:
+            sd = R.Recover.run(io.BytesIO(ent["data"])).section_dict
+        except Exception:  # noqa
+            continue
+        for name in ("TABLES", "BLOCKS", "ENTITIES", "OBJECTS"):
+            for g in sd.get(name, []):
+                base = [(t.code, _show_val(t.value)[0], t.value if isinstance(t.value, str) else None) for t in g]
+                if any(k == "s" and any(ord(ch) > 127 for ch in v) for _, k, v in base):
+                    continue  # handle strings are modelled for ASCII only
+                for variant in range(ctx.n(1, 4)):
+                    t = list(base)
+                    if variant and len(t) > 1:
+                        i = rng.randrange(1, len(t))
+                        r = rng.random()
+                        if r < 0.3:
+                            del t[i]
+                        elif r < 0.6:
+                            c = rng.choice(ENV_CODES)
+                            k = _kind_of(c)
+                            t[i] = (c, k, (t[i][2] if t[i][2] is not None else "9") if k == "s" else None)
+                        elif t[i][1] == "s":
+                            t[i] = (t[i][0], "s", rng.choice(ENV_VALUES))
+                    ngroups += 1
+                    cases.append(("envelope|" + " ".join(_enc_ctag(*x) for x in t), impl_envelope(t, ctx), variant > 0))
+    ctx.hist("X10 loading envelope", "corpus entity groups", ngroups)
+    ctx.correspond("X10 loading envelope", "C07", cases)
+
+    # X11: order in which load_and_bind_dxf_content walks the sections of a dict
+    from ezdxf.lldxf import loader as LD
+    import ezdxf.entities.factory as F
+
+    cases = []
+    names_pool = ["HEADER", "CLASSES", "TABLES", "BLOCKS", "ENTITIES", "OBJECTS", "ACDSDATA", "THUMBNAILIMAGE"]
+    for _ in range(ctx.n(200, 1000)):
+        names = rng.sample(names_pool, rng.randrange(0, len(names_pool) + 1))
+        seen = []
+
+        class Doc:  # the minimum load_and_bind_dxf_content touches
+            class entitydb:  # noqa
+                @staticmethod
+                def __contains__(h):
+                    return False
+
+        orig_load, orig_bind = LD.load_dxf_entities, F.bind
+        try:
+            LD.load_dxf_entities = lambda section, doc: (seen.append(section[0][0].value) or [])  # noqa
+            LD.load_and_bind_dxf_content({n: [[_mk_tag(0, "s", n)]] for n in names}, Doc)
+        finally:
+            LD.load_dxf_entities, F.bind = orig_load, orig_bind
+        cases.append(("loadseq|" + ",".join(nats(n.encode()) for n in names), ",".join(_dots(n) for n in seen), len(names) > 1))
+    ctx.correspond("X11 section load order", "C07", cases)
 
 
 # ------------------------------------------------------------------ correspondence: generators
@@ -924,7 +1364,7 @@ def correspond(ctx):
     cp = corpus()
     for fid, ent in cp.items():
         cases.append((f"front|{cfg}|hash|{nats(ent['data'])}", impl_front(ent["data"], "hash"), True))
-        for _ in range(ctx.n(40, 400)):
+        for _ in range(ctx.n(30, 400)):
             kind = rng.choice(KINDS)
             f = (kind, rng.randrange(ent["ntags"]), rng.randrange(1000))
             data = apply_fault(ent["lines"], *f)
@@ -937,6 +1377,31 @@ def correspond(ctx):
             cases.append((f"front|{cfg}|hash|{nats(data)}", impl, True))
     ctx.hist("X2 front end corpus", "skipped (encoding/MIF outside the model)", skipped)
     ctx.correspond("X2 front end corpus", "C07", cases)
+
+    # --- X2b: EVERY ASCII DXF file of the repository (examples_dxf, integration_tests) that is small enough: undamaged and with
+    # one fault (hash of the same rendering); the distribution is printed in the evidence
+    cases, dist = [], {}
+    repo = repo_files()
+    ctx.note(f"X2b repository files: {len(repo['files'])} usable of {repo['found']} found (skipped: {repo['skipped']}), "
+             f"{sum(len(d) for _, d in repo['files'])} bytes, size quantiles {repo['quantiles']}")
+    for name, data in repo["files"]:
+        cases.append((f"front|{cfg}|hash|{nats(data)}", impl_front(data, "hash", ctx), True))
+        ctx.hist("X2b repository files", "undamaged")
+        ctx.hist("X2b repository files", "dir:" + name.split("/")[0])
+        ctx.hist("X2b repository files", "version:" + repo["versions"].get(name, "?"))
+    weights = [1.0 / (1 + len(d) / 20000) for _, d in repo["files"]]  # smaller files more often: the driver is interpreted
+    for _ in range(ctx.n(50, 900) if repo["files"] else 0):
+        name, data = rng.choices(repo["files"], weights)[0]
+        lines = data.splitlines(keepends=True)
+        kind = rng.choice(KINDS)
+        data2 = apply_fault(lines, kind, rng.randrange(max(1, len(lines) // 2)), rng.randrange(1000))
+        if not modelled_input(data2):
+            continue
+        impl = impl_front(data2, "hash", ctx)
+        ctx.hist("X2b repository files", kind)
+        ctx.hist("X2b repository files", "ok" if impl.startswith("ok") else impl)
+        cases.append((f"front|{cfg}|hash|{nats(data2)}", impl, True))
+    ctx.correspond("X2b repository files", "C07", cases)
 
     # --- X3: number parsers
     cases = []
@@ -1055,3 +1520,5 @@ def correspond(ctx):
         impl = impl_validate([(c, v) for c, v in ts])
         cases.append(("validate|" + " ".join(enc_t(c, v) for c, v in ts), impl, len(ts) > 2))
     ctx.correspond("X9 entity_structure_validator", "C07", cases)
+
+    correspond_load(ctx, ctx.rng("c07-load"))
